@@ -501,39 +501,44 @@ func unclosedReturnsAssuming(fn *ssa.Function, closers []ssa.Instruction, flag [
 	return out
 }
 
-func ruleR04c(c *Ctx, r *Report) {
-	type fin struct {
-		pkg, recv, name string
-		flag            [3]string
+type finalizerSpec struct {
+	pkg, recv, name string
+	flag            [3]string
+}
+
+var finalizers = []finalizerSpec{
+	{pkgBS, "ReadWrite", "Finalize", closedFlag["ReadWrite"]},
+	{pkgBS, "ReadOnly", "Close", closedFlag["ReadOnly"]},
+	{pkgStorage, "StorageCar", "Finalize", closedFlag["StorageCar"]},
+	{pkgDeferred, "DeferredCarWriter", "Close", closedFlag["DeferredCarWriter"]},
+}
+
+func checkFinalizerCloses(c *Ctx, r *Report, f finalizerSpec) {
+	fn, err := c.Func(f.pkg, f.recv, f.name)
+	if err != nil {
+		r.InfraFail("%v", err)
+		return
 	}
-	for _, f := range []fin{
-		{pkgBS, "ReadWrite", "Finalize", closedFlag["ReadWrite"]},
-		{pkgBS, "ReadOnly", "Close", closedFlag["ReadOnly"]},
-		{pkgStorage, "StorageCar", "Finalize", closedFlag["StorageCar"]},
-		{pkgDeferred, "DeferredCarWriter", "Close", closedFlag["DeferredCarWriter"]},
-	} {
-		fn, err := c.Func(f.pkg, f.recv, f.name)
-		if err != nil {
-			r.InfraFail("%v", err)
+	key := "finalizer-closes@" + fnKey(fn)
+	closers := closingInstrs(c, fn, f.flag, 0)
+	if len(closers) == 0 {
+		r.Viol(key, c.Pos(fn.Pos()), "the finalizer never sets the closed flag (directly or through a helper that does so on all its paths)")
+		return
+	}
+	bad := ""
+	for _, ret := range unclosedReturns(fn, closers, f.flag) {
+		if why, ok := notWritableExit(fn, ret); ok {
+			r.Exempt(key+"#exit-"+why, c.Pos(ret.Pos()), "return taken only when the store is not a writable store ("+why+"); C04 speaks of writable stores")
 			continue
 		}
-		key := "finalizer-closes@" + fnKey(fn)
-		closers := closingInstrs(c, fn, f.flag, 0)
-		if len(closers) == 0 {
-			r.Viol(key, c.Pos(fn.Pos()), "the finalizer never sets the closed flag (directly or through a helper that does so on all its paths)")
-			continue
-		}
-		bad := ""
-		nEx := 0
-		for _, ret := range unclosedReturns(fn, closers, f.flag) {
-			if why, ok := notWritableExit(fn, ret); ok {
-				nEx++
-				r.Exempt(key+"#exit-"+why, c.Pos(ret.Pos()), "return taken only when the store is not a writable store ("+why+"); C04 speaks of writable stores")
-				continue
-			}
-			bad = fmt.Sprintf("the return at %s can be reached without the store having been marked closed: after this call lookups and writes keep succeeding", c.Pos(ret.Pos()))
-		}
-		r.Check(bad == "", key, c.Pos(fn.Pos()), "every return leaves closed == true", bad)
+		bad = fmt.Sprintf("the return at %s can be reached without the store having been marked closed: after this call lookups and writes keep succeeding", c.Pos(ret.Pos()))
+	}
+	r.Check(bad == "", key, c.Pos(fn.Pos()), "every return leaves closed == true", bad)
+}
+
+func ruleR04c(c *Ctx, r *Report) {
+	for _, f := range finalizers {
+		checkFinalizerCloses(c, r, f)
 	}
 	// ReadWrite.Discard delegates to ReadOnly.Close
 	fn, err := c.Func(pkgBS, "ReadWrite", "Discard")
